@@ -250,7 +250,7 @@ func genPrefix(s *sys) *rapid.Generator[[2]uint32] {
 }
 
 func TestStateMachine(t *testing.T) {
-	rt.Check(t, 1500, 100000, func(t *rapid.T) {
+	rt.Check(t, 1500, 250000, func(t *rapid.T) {
 		s := newSys()
 		fail := func(msg string) {
 			if msg != "" {
